@@ -112,6 +112,8 @@ def run_unit(unit, tier='quick'):
                 reg = asm.region_of(ln)
                 if reg:
                     break
+        if U.get('only_kinds') and not e['code'] and not re.search(U['only_kinds'], e['kind']):
+            continue    # an obligation of another property decided by the sibling variant of this unit
         if e['code']:
             # a rustc error (type/borrow/trait), not a verification condition: the assembled unit is broken
             undecided.append('verus %s: rustc error %s: %s (line %d)' % (unit, e['code'], e['kind'], e['line']))
